@@ -411,8 +411,11 @@ def prebuild(ctx):
     ctx.coq_build_cached(FIX_FILES[1:], deps=_fix_deps() + FIX_FILES[:1], timeout=900)
     ctx.coq_build_cached(ELIM_FILES[:1], deps=FIX_MODEL_DEPS + FIX_FILES[:1], timeout=600)
     ctx.coq_build_cached(ELIM_FILES[1:], deps=_fix_deps() + FIX_FILES[:2] + ELIM_FILES[:1], timeout=900)
-    from vlib import c14_pass, c14a_part
+    ctx.coq_build_cached(AFF_FILES[:1], deps=FIX_MODEL_DEPS + FIX_FILES[:1] + ELIM_FILES[:1], timeout=600)
+    ctx.coq_build_cached(AFF_FILES[1:], deps=_fix_deps() + FIX_FILES[:2] + ELIM_FILES[:2] + AFF_FILES[:1], timeout=900)
+    from vlib import c14_pass, c14a_part, c14d_part
     c14a_part.prebuild(ctx)
+    c14d_part.prebuild(ctx)
     c14_pass.prebuild(ctx)
 
 
@@ -724,6 +727,7 @@ def part_memloc(ctx):
 # ---------------------------------------------------------------- the analysis result, validated per function
 FIX_FILES = ["C14/RangeFix.v", "C14/RangeFixProofs.v", "C14/PropsFix.v"]
 ELIM_FILES = ["C14/RangeElim.v", "C14/RangeElimProofs.v", "C14/PropsElim.v"]
+AFF_FILES = ["C14/RangeAffine.v", "C14/RangeAffineProofs.v", "C14/PropsAffine.v"]
 FIX_MODEL_DEPS = ["C14/RangeBase.v", "C14/GenRange.v", "C14/GenRangeClients.v"]
 
 
@@ -746,6 +750,8 @@ def part_fixpoint(ctx):
     b = ctx.coq_build_cached(FIX_FILES[1:], deps=_fix_deps() + FIX_FILES[:1], timeout=900)
     ctx.coq_build_cached(ELIM_FILES[:1], deps=FIX_MODEL_DEPS + FIX_FILES[:1], timeout=600)
     b2 = ctx.coq_build_cached(ELIM_FILES[1:], deps=_fix_deps() + FIX_FILES[:2] + ELIM_FILES[:1], timeout=900)
+    ctx.coq_build_cached(AFF_FILES[:1], deps=FIX_MODEL_DEPS + FIX_FILES[:1] + ELIM_FILES[:1], timeout=600)
+    b3 = ctx.coq_build_cached(AFF_FILES[1:], deps=_fix_deps() + FIX_FILES[:2] + ELIM_FILES[:2] + AFF_FILES[:1], timeout=900)
     rnd = ctx.rng("fixpoint")
     progs = PC.select(ctx.tier, rnd)
     levels = [OptimizationLevel.GAS] if ctx.tier == "quick" else [OptimizationLevel.GAS, OptimizationLevel.CODESIZE, OptimizationLevel.O3]
@@ -833,15 +839,46 @@ def part_fixpoint(ctx):
                                       + e_["name"] + ")",
                                       {"theorem": "assert_elimination_sound (elim_check f E f' = false)", "pass": e_["pass_name"],
                                        "range_certificate_accepted": bool(len(r) >= 2 and r[1] == 1), "function_after": e_["text"][:6000]})
-    for bb_ in (b, b2):
-        if not bb_["ok"] and not found and not efound:
+    # ---- AffineFoldingPass: every invocation that rewrote an instruction
+    astats = {"pass_invocations_with_rewrites": len(obs.affine), "validated": 0, "rejected": 0, "instructions_rewritten": 0}
+    aff = obs.affine
+    if ctx.tier == "quick" and len(aff) > 40:
+        aff = sorted(aff, key=lambda e_: -e_["ninsts"])[:12] + rnd.sample(sorted(aff, key=lambda e_: -e_["ninsts"])[12:], 28)
+    afound = False
+    if (COQ / "C14" / "RangeAffine.vo").exists() and aff:
+        try:
+            ares = c14_fix.evaluate_affine(aff, shard=max(1, len(aff) // 10), timeout=1200)
+        except RuntimeError as e:
+            ares = None
+            ctx.violation("correspondence-broken", "the affine-folding validator could not be evaluated", {"error": str(e)[-1500:]})
+        if ares is not None:
+            for e_, r in zip(aff, ares):
+                if len(r) >= 2:
+                    astats["instructions_rewritten"] += r[1]
+                if len(r) >= 1 and r[0] == 1:
+                    astats["validated"] += 1
+                else:
+                    astats["rejected"] += 1
+                    if astats["rejected"] <= 2:
+                        wit = c14_fix.search_value_change(e_, rnd)
+                        if wit is not None:
+                            afound = True
+                            ctx.violation("failing-input", "AffineFoldingPass changes the value an instruction computes", wit,
+                                          key="affine:" + wit["instruction_after"][:80])
+                        else:
+                            ctx.violation("theorem-broken", "affine_folding_sound does not apply: AffineFoldingPass rewrote an instruction "
+                                          "whose normal form (root + offset) differs from the original's (function " + e_["name"] + ")",
+                                          {"theorem": "affine_folding_sound (affine_check f f' = false)", "function_after": e_["text"][:6000]})
+    ctx.corr["affine_folding"] = astats
+    for bb_ in (b, b2, b3):
+        if not bb_["ok"] and not found and not efound and not afound:
             ctx.violation("theorem-broken", f"{bb_.get('failed_lemma')} in {bb_['file']}",
                           {"theorem": bb_.get("failed_lemma"), "file": bb_["file"], "coq_output": bb_["out"][-1500:]})
     ctx.corr["range_fixpoint"] = stats
     ctx.corr["assert_elimination"] = estats
     if samples:
         ctx.samples.append({"validated_function": samples[0]["name"], "blocks": samples[0]["nblocks"], "instructions": samples[0]["ninsts"]})
-    return stats["validated"] + stats["dynamic_executions"] + estats["validated"]
+    return stats["validated"] + stats["dynamic_executions"] + estats["validated"] + astats["validated"]
 
 
 def run(ctx):
@@ -863,12 +900,18 @@ def run(ctx):
     from vlib import c14a_part
     total += c14a_part.part_algebraic(ctx)
     ctx.log(f"algebraic/sccp {time.time()-t:.0f}s"); t = time.time()
+    from vlib import c14d_part
+    total += c14d_part.part_dom(ctx)
+    ctx.log(f"dominators/ssa/dfg {time.time()-t:.0f}s"); t = time.time()
     from vlib import c14s_part
     total += c14s_part.part_stack(ctx)
     ctx.log(f"stack model {time.time()-t:.0f}s"); t = time.time()
     from vlib import c14_pass
     total += c14_pass.part_passes(ctx)
-    ctx.log(f"passes {time.time()-t:.0f}s")
+    ctx.log(f"passes {time.time()-t:.0f}s"); t = time.time()
+    from vlib import c14_fixvenom
+    total += c14_fixvenom.part_fixvenom(ctx)
+    ctx.log(f"rangefix/venom link {time.time()-t:.0f}s")
     ctx.corr.setdefault("evaluations", 0)
     ctx.corr["evaluations"] += total
     ctx.corr["distinct_nontrivial"] = total
